@@ -249,3 +249,6 @@ class ShapelyModule:
     STRtree = STRtreeModel
     Polygon = _GeometryMod.Polygon
     Point = _GeometryMod.Point
+    MultiPolygon = staticmethod(__import__('pyvc.lib.exportlibs', fromlist=['x']).MultiPolygon)
+    to_wkt = staticmethod(__import__('pyvc.lib.exportlibs', fromlist=['x']).to_wkt)
+    to_wkb = staticmethod(__import__('pyvc.lib.exportlibs', fromlist=['x']).to_wkb)
